@@ -295,9 +295,12 @@ C19Year ==
               Chk("C19.civil.order", << e.y, R[i].c, R[i + 1].c >>,
                   LexCmp(R[i].hms, R[i + 1].hms) = -1 /\ LexCmp(R[i].ymd, R[i + 1].ymd) = -1))
           \* distinct dates never print alike
-          + Chk("C19.lunar.distinct", e.y, Cardinality({ R[i].ls : i \in { j \in 1..n : R[j].p = 0 } }) = Cardinality({ j \in 1..n : R[j].p = 0 }))
-          + Chk("C19.tao.distinct", e.y, Cardinality({ R[i].ts : i \in { j \in 1..n : R[j].p = 0 } }) = Cardinality({ j \in 1..n : R[j].p = 0 }))
-          + Chk("C19.foto.distinct", e.y, Cardinality({ R[i].fs : i \in { j \in 1..n : R[j].p = 0 } }) = Cardinality({ j \in 1..n : R[j].p = 0 })))
+          + (LET ok == { j \in 1..n : R[j].p = 0 }
+                 P == e.pre
+                 np == Len(P)
+             IN Chk("C19.lunar.distinct", e.y, Cardinality({ R[i].ls : i \in ok } \cup { P[i].ls : i \in 1..np }) = Cardinality(ok) + np)
+                + Chk("C19.tao.distinct", e.y, Cardinality({ R[i].ts : i \in ok } \cup { P[i].ts : i \in 1..np }) = Cardinality(ok) + np)
+                + Chk("C19.foto.distinct", e.y, Cardinality({ R[i].fs : i \in ok } \cup { P[i].fs : i \in 1..np }) = Cardinality(ok) + np)))
   /\ UNCHANGED << cur, aux >>
 
 (***************************************************************************)
